@@ -114,13 +114,18 @@ pub fn snapshot(dir: &Path) -> Tree {
 
 /// Run the CLI in `dir` (project root; stdout/stderr are collected next to it, not inside).
 pub fn run(dir: &Path, args: &[String], env: &[(&str, &str)], timeout: Duration) -> CliRun {
+    run_in(dir, "", args, env, timeout)
+}
+
+/// the same, started in the sub-directory `cwd_rel` of the project (relative paths in `args` are the caller's business)
+pub fn run_in(dir: &Path, cwd_rel: &str, args: &[String], env: &[(&str, &str)], timeout: Duration) -> CliRun {
     let before = snapshot(dir);
     let side = PathBuf::from(format!("{}.io", dir.to_string_lossy()));
     std::fs::create_dir_all(&side).unwrap_or_else(|e| crate::report::machinery(&format!("mkdir {side:?}: {e}")));
     let (so, se) = (side.join("stdout"), side.join("stderr"));
     let mk = |p: &Path| std::fs::File::create(p).unwrap_or_else(|e| crate::report::machinery(&format!("create {p:?}: {e}")));
     let mut cmd = Command::new(cli_path());
-    cmd.current_dir(dir).args(args).stdin(Stdio::null()).stdout(mk(&so)).stderr(mk(&se));
+    cmd.current_dir(if cwd_rel.is_empty() { dir.to_path_buf() } else { dir.join(cwd_rel) }).args(args).stdin(Stdio::null()).stdout(mk(&so)).stderr(mk(&se));
     cmd.env("NO_COLOR", "1").env_remove("RUST_LOG").env("RUST_BACKTRACE", "0");
     for (k, v) in env {
         cmd.env(k, v);
